@@ -373,18 +373,14 @@ def run(chk: Check):
 
 
 UNPROVED = [
-    'C15_own_contents for seq[idx] = other_sequence at full strength: proved (C15_own_contents_setitem_seq_partial) '
-    'when the source is on another buffer and no element raises; NOT proved when source and target share the buffer '
-    '(the element-by-element copy reads rows it has just written) and for the partial assignment left by a mid-way '
-    'ValueError — there only preservation of the invariant is proved and the values are tied by the correspondence',
-    'no single simulation theorem abs(step st o) = spec_step (abs st) o against an abstract list-with-sharing machine '
-    'is stated: what is proved, for every reachable state, is per operation (a) the contents of the target / created '
-    'object as a list function of the old contents and (b) the value of every element of every other object',
+    'a single simulation theorem for ALL operations is not stated: C15_simulation (absC (step st o) = spec_step (absC st) o, '
+    'abstract state = per object (alive, list of arrays)) covers construction, un-cached append, extend, indexing, view '
+    'constructor, copy, out-of-place operators (scalar / sequence operand) and drop; cached builds, concatenate, '
+    'assignments and in-place operators are covered by separate theorems (visible+pending list; the value of every '
+    'element of every object through the cell valuation abs_seq / is_cell), not by the abstract machine, because their '
+    'effect depends on which arrays are shared, which growth changes in a capacity-dependent way',
     'C15_view_write_through at full strength is false of the faithful model (C15_view_write_through_refuted, S-C15d); '
     'proved: _partial (exactly the same-cell elements change, i.e. while the two objects share the buffer)',
-    'operators with an ArraySequence operand (OOpSeq: in place element after element reading the current rows of '
-    'the operand, out of place, NumPy one-row broadcasting, _check_shape refusals) are modelled and tied by the '
-    'correspondence; proved for them: preservation of the invariant only (no value theorem)',
     'not modelled, hence no theorem: tuple indices, concatenate(axis != 0), '
     'save/load, the ValueError of append on a trailing-shape mismatch (which detaches a view before raising), '
     'shrink_data() called directly on a view',
